@@ -16,7 +16,7 @@ From GT Require Import Base.UTree Spec.Obs Spec.ConsensusSpec Model.Reroot Model
      Proofs.IndexSplit Proofs.CompareTree Proofs.CompareMain Proofs.ConsensusFloat Proofs.ConsensusCount
      Proofs.ConsensusMain Proofs.ConsensusFreq Proofs.CompareDomain Proofs.CompareBridge Proofs.ConsensusRooted.
 From GT Require Import Spec.Unrooted Proofs.Unroot Proofs.ConsensusRound Proofs.ConsensusCompat Proofs.CompareTotal Proofs.ConsensusFold Proofs.ConsensusInsert Proofs.ConsensusTreeMain.
-From GT Require Import Model.ConsensusTree Proofs.CompareDomain Proofs.ConsensusCompat.
+From GT Require Import Model.ConsensusTree Proofs.CompareDomain Proofs.ConsensusCompat Proofs.CompareReject Proofs.ConsensusReject Proofs.CompareCor.
 Import ListNotations.
 Local Close Scope Q_scope.
 Local Open Scope string_scope.
@@ -377,3 +377,44 @@ Theorem C09_consensus_headline :
                              (inject_Z (Z.of_nat (freq_count ts k)) / inject_Z (Z.of_nat n))%Q false).
 Proof. exact consensus_headline. Qed.
 Print Assumptions C09_consensus_headline.
+
+(** * the rejection clause at full strength: a tree with a tip name twice (as the loop sees it), at
+    the first or at any later position, makes Consensus fail; with [C09_other_taxa] (another taxon
+    set) and [C09_bad_cutoff] these are all the ways taxon multisets or the threshold can be wrong *)
+Theorem C09_consensus_dup_first :
+  forall t post c64, dup_input t -> cutoff_ok c64 = true ->
+    consensus_gen aindex ai_new ai_add (fun a => a) (t :: post) c64 = Some (Err dup_msg).
+Proof. exact consensus_dup_first. Qed.
+Print Assumptions C09_consensus_dup_first.
+
+Theorem C09_consensus_dup_later :
+  forall t0 pre t post c64,
+    ok_input t0 ->
+    Forall (fun u => ok_input u /\ Permutation (leaves (prep_input u)) (leaves (prep_input t0))) pre ->
+    dup_input t -> cutoff_ok c64 = true ->
+    consensus_gen aindex ai_new ai_add (fun a => a) (t0 :: pre ++ t :: post)%list c64 = Some (Err dup_msg).
+Proof. exact consensus_dup_later. Qed.
+Print Assumptions C09_consensus_dup_later.
+
+Example C09_consensus_dup_example :
+  consensus [wit_ref; wit_dup] (1 # 2) = Some (Err dup_msg) /\ consensus [wit_dup; wit_ref] (1 # 2) = Some (Err dup_msg).
+Proof. exact consensus_dup_example. Qed.
+Print Assumptions C09_consensus_dup_example.
+
+(** the headline is not vacuous: ((a,b),c,d) twice and (a,b,c,d), threshold 0.5 *)
+Example C09_headline_example :
+  let ts := [wit_ref; wit_ref; wit_star] in
+  Forall (fun t => good t /\ tipset t = tipset wit_ref) ts /\
+  ((1 # 2) <= 1 # 2)%Q /\ (Zpos (Qden (1 # 2)) * Z.of_nat (length ts) < 2 ^ 52)%Z /\
+  (exists s, In s (branch_splits (tipset wit_ref) (consensus_utree ts (round53 (1 # 2)))) /\
+             stip s = false /\ sside s = ["c"; "d"]%string /\ (ssup s == 2 # 3)%Q /\ (slen s == 1)%Q).
+Proof. exact headline_example. Qed.
+Print Assumptions C09_headline_example.
+
+(** the set of kept bipartitions does not depend on the order of the collection *)
+Theorem C09_kept_keys_perm :
+  forall t0 r t0' r' c64 k,
+    Permutation (t0 :: r) (t0' :: r') -> tipset t0' = tipset t0 ->
+    (In k (kept_keys (t0 :: r) c64) <-> In k (kept_keys (t0' :: r') c64)).
+Proof. exact kept_keys_perm. Qed.
+Print Assumptions C09_kept_keys_perm.
